@@ -6,6 +6,9 @@ use abasic_core::verif_hooks::{self, Snapshot};
 use abasic_core::{Interpreter, InterpreterError, InterpreterOutput, InterpreterState, OutOfMemoryError, SyntaxError};
 use serde_json::{json, Value};
 
+/// No legitimate host call comes anywhere near this many token-cursor reads (measured maximum: a few hundred).
+pub const TOKEN_READ_BUDGET_PER_CALL: u64 = 5_000_000;
+
 #[derive(Clone, Debug, PartialEq)]
 pub enum Out {
     Print(String),
@@ -229,6 +232,8 @@ impl Session {
     pub fn call(&mut self, op: Op) -> &CallRec {
         assert!(self.is_legal(&op), "harness bug: illegal op {:?} in state {:?}", op, self.state());
         let (t0, d0) = verif_hooks::work_counters();
+        // logical watchdog: a call that keeps reading tokens without handing control back is cut off by the hook
+        verif_hooks::set_token_read_budget(Some(TOKEN_READ_BUDGET_PER_CALL));
         let it = &mut self.it;
         let mut err_info: Option<ErrInfo> = None;
         let caught = util::catch(|| match &op {
@@ -272,6 +277,7 @@ impl Session {
                 it.enable_tracing = t;
             }
         });
+        verif_hooks::set_token_read_budget(None);
         let (t1, d1) = verif_hooks::work_counters();
         let res = match caught {
             Err(msg) => {
@@ -307,6 +313,14 @@ impl Session {
 
     fn post_call_checks(&mut self, rec: &CallRec) {
         if let Res::Panic(m) = &rec.res {
+            if m.contains("token-read budget") {
+                self.trip(
+                    "C09",
+                    "call-does-not-return",
+                    format!("host call {} read the token cursor more than {} times without handing control back (cut off by the hook's logical watchdog)", brief_op(&rec.op), TOKEN_READ_BUDGET_PER_CALL),
+                );
+                return;
+            }
             let sig = format!("panic:{}", m.rsplit(" @ ").next().unwrap_or(""));
             self.trip("C01", &sig, format!("host call {:?} panicked: {}", brief_op(&rec.op), m));
             return;
@@ -501,6 +515,12 @@ pub fn snapshot_invariants(s: &Snapshot) -> Vec<Trip> {
                 trip("C16", "param-kind", format!("parameter {} bound to kind {} ({:?})", name, kind, text));
             }
         }
+    }
+    // S7: the nesting counter of the recursive-descent evaluator is balanced within every host call; a value
+    // left over at a turn boundary is never given back and eventually turns every expression into
+    // OUT OF MEMORY (the interpreter is wedged although each single call still "returns normally")
+    if s.nesting_depth != 0 {
+        trip("C01", "nesting-depth-leak", format!("nesting depth is {} at a turn boundary (must be 0 between host calls)", s.nesting_depth));
     }
     // S5
     if s.map_lines != s.set_lines {
